@@ -16,7 +16,7 @@ DURS: List[List[Any]] = [
 ]
 GAPS = [0.0, 0.0, 0.0, EPS, 0.05, 0.1, 0.3, 0.3, 0.7, 1.3]
 EXCS = ["ValueError", "KeyError", "CustomError", "CustomBase", "KeyboardInterrupt", "SystemExit",
-        "CancelledError", "GeneratorExit", "TimeoutError", "OSError", "RuntimeError"]
+        "CancelledError", "GeneratorExit", "TimeoutError", "OSError", "RuntimeError", "FalsyError", "EmptyLenError"]
 VALUES: List[Any] = [None, 0, 1, -7, 3.5, "", "text", "ü∆", [1, 2, [3]], {"a": {"b": [1, None]}}, True, False,
                      [], {}, 2 ** 70, "x" * 300]
 
@@ -194,6 +194,16 @@ def gen_c01_spec(rng: random.Random, maxn: int = 40) -> Dict[str, Any]:
                              "beh": gen_beh(rng, ["ok", "ok", "raise", "noresult"])}
         if m["task"] == "t_sync":
             m["beh"]["dur"] = []
+        if kind == "valid" and rng.random() < 0.15:
+            m["partial_types"] = True
+            m["labels"] = {"origin": "cron", "trace": "t-1"}
+        if kind == "valid" and rng.random() < 0.12:
+            # a parameter annotated with a plain class (no pydantic schema), value sent by keyword or position
+            m["task"] = "t_plain" if m["task"] != "t_sync" else "t_plain_sync"
+            if rng.random() < 0.5:
+                m["kwargs"] = {"obj": rng.choice([5, "x", {"a": 1}])}
+            else:
+                m["args"] = [rng.choice([5, "x", {"a": 1}])]
         msgs.append(m)
     spec: Dict[str, Any] = {"cfg": gen_cfg(rng), "msgs": msgs}
     mode = rng.choice(["stop", "stop", "end", "end", "none"])
@@ -323,6 +333,16 @@ def gen_c02_spec(rng: random.Random) -> Dict[str, Any]:
                 beh["cleanup"] = rng.choice([["y"], ["y", "y"], [0.05], [0.3]])
         if rng.random() < 0.2:
             fail.append(f"m{i}")
+        if rng.random() < 0.1:
+            m["task"] = "t_plain" if task != "t_sync" else "t_plain_sync"
+            m["kwargs" if rng.random() < 0.5 else "args"] = {"obj": 5} if "kwargs" not in m and rng.random() < 2 else [5]
+            if "args" in m and isinstance(m["args"], dict):
+                m["args"] = [5]
+            if "kwargs" in m and isinstance(m["kwargs"], list):
+                m["kwargs"] = {"obj": 5}
+        if rng.random() < 0.1:
+            m["partial_types"] = True
+            m["labels"] = {"origin": "cron"}
         msgs.append(m)
     spec: Dict[str, Any] = {
         "cfg": {"A": rng.choice([1, 2, 4, None]), "P": rng.choice([0, 1, 3]), "ack": ack},
@@ -755,6 +775,8 @@ def gen_c06_spec(rng: random.Random, depth: int, maxmsgs: int) -> Dict[str, Any]
         tasks[f"task{ti}"] = {"fn": rng.choice(["async", "async", "sync"]), "deps": [ren[r] for r in roots], "ctx": True}
         if rng.random() < 0.4:
             tasks[f"task{ti}"]["labels"] = rng.choice([{"priority": 1}, {"team": "core", "q": 2}])
+        if tasks[f"task{ti}"]["fn"] == "async" and rng.random() < 0.3:
+            tasks[f"task{ti}"]["progress"] = True  # ProgressTracker dependency (reports, then updates state only)
     overrides: Dict[str, str] = {}
     if rng.random() < 0.3 and deps:
         # broker.dependency_overrides: a dependency is replaced by one whose own graph has an un-cached,
@@ -776,7 +798,8 @@ def gen_c06_spec(rng: random.Random, depth: int, maxmsgs: int) -> Dict[str, Any]
         if tasks[tn]["fn"] == "sync":
             beh["dur"] = []
         msgs.append({"at": round(t, 6), "task": tn, "beh": beh, "ackable": rng.random() < 0.3,
-                     "labels": {"k": rng.randint(0, 9)}, "raw_labels": rng.random() < 0.2})
+                     "labels": {"k": rng.randint(0, 9)}, "raw_labels": rng.random() < 0.2,
+                     "partial_types": rng.random() < 0.1})
     spec: Dict[str, Any] = {"cfg": {"A": rng.choice([None, 2, 4, 8]), "P": rng.choice([0, 2])},
                             "tasks": tasks, "deps": deps, "msgs": msgs, "end_stream": True, "overrides": overrides,
                             "backend": {"lat": rng.choice([0, 0.02])}}
@@ -846,11 +869,14 @@ def gen_c07_spec(rng: random.Random) -> Dict[str, Any]:
                 beh["cleanup"] = rng.choice([["y"], [0.05], [0.2]])
         if rng.random() < 0.2:
             fail.append(f"m{i}")
+        if rng.random() < 0.15:
+            m["partial_types"] = True
         msgs.append(m)
     spec: Dict[str, Any] = {"cfg": {"A": rng.choice([1, 2, 4, None]), "P": rng.choice([0, 1])}, "msgs": msgs,
                             "end_stream": True, "backend": {"lat": rng.choice([0, "y", 0.05]), "fail": fail}}
-    if rng.random() < 0.12:
+    if rng.random() < 0.15:
         spec["via"] = "inmemory"
+        spec["inplace"] = rng.random() < 0.5  # InMemoryBroker(await_inplace=True): kiq returns after the execution
     spec["horizon"] = est_horizon(spec)
     return spec
 
@@ -895,6 +921,8 @@ def gen_mw(rng: random.Random, hooks: List[str]) -> Dict[str, Any]:
                      "replace": rng.random() < 0.5}
             if rng.random() < 0.25:
                 mw[h]["style"] = rng.choice(["awaitable", "task"])
+    if mw and rng.random() < 0.2:
+        next(iter(mw.values()))["inherit"] = True  # the whole middleware inherits its hooks from a base class
     return mw
 
 
@@ -911,6 +939,8 @@ def gen_c10_spec(rng: random.Random) -> Dict[str, Any]:
         if task == "t_sync":
             beh["dur"] = []
         sends.append({"tok": tok, "task": task, "beh": beh, "at": rng.choice([0, 0, 0.01])})
+        if rng.random() < 0.12:
+            sends[-1]["via_broker2"] = True  # task.kicker().with_broker(other): the other broker's hooks apply
         if rng.random() < 0.2:
             fail_backend.append(tok)
     kick_fail = sorted(rng.sample(range(n), rng.choice([0, 0, 1, min(2, n)])))
@@ -921,8 +951,9 @@ def gen_c10_spec(rng: random.Random) -> Dict[str, Any]:
                                          for _ in range(3)],
                             "kick_lat": rng.choice([0, 0, 0.01]),
                             "backend": {"lat": rng.choice([0, "y", 0.02]), "fail": fail_backend},
-                            "stop_at": 8.0, "horizon": 40.0, "msgs": []}
-    if rng.random() < 0.12:
+                            "stop_at": 8.0, "horizon": 40.0, "msgs": [],
+                            "mws2": [gen_mw(rng, ["pre_send", "post_send"]) for _ in range(rng.randint(0, 2))]}
+    if rng.random() < 0.12 and not any(s.get("via_broker2") for s in sends):
         spec["via"] = "inmemory"
         spec["kick_lat"] = 0
     return spec
